@@ -536,10 +536,16 @@ def make_flowdir(layout, int32=False):
     return g
 
 
-def make_valgrid(layout, seed, nrows=6, ncols=6, cellsize=0.5, xll=10., yll=-3., name="val"):
+def make_valgrid(layout, seed, nrows=6, ncols=6, cellsize=0.5, xll=10., yll=-3., name="val", special=False):
     from hydrodiy.gis.grid import Grid
     g = Grid(name, ncols, nrows, dtype=grid_dtype(layout), nodata=-9, cellsize=cellsize, xllcorner=xll, yllcorner=yll)
     g.data[...] = pos(nrows * ncols, seed, off=2).reshape(nrows, ncols)
+    if special and np.dtype(g.dtype).kind == "f":
+        # cells that a "clean-up" of the caller's grid would rewrite: NaN, +-inf and the no-data marker itself
+        g.data[1, 2] = np.nan
+        g.data[4, 4] = np.inf
+        g.data[2, 0] = -np.inf
+        g.data[3, 3] = -9
     return g
 
 
@@ -609,6 +615,26 @@ def build_catalogue():
     add("metrics.corr[Spearman,mean,excludenull]", obs_ens,
         lambda a: metrics.corr(a["obs"], a["ens"], type="Spearman", stat="mean", excludenull=True))
     add("metrics.corr[1d]", obs_sim, lambda a: metrics.corr(a["obs"], a["sim"]))
+
+    # ---- shapes that a wrapper normalises (row vector, single column): the caller's array must keep its shape
+    def obs_row(n, s, lay):
+        return {"obs": A(pos(n, s)), "ens": A(pos(n, s, off=4).reshape(1, n))}
+
+    def obs_col(n, s, lay):
+        return {"obs": A(pos(n, s)), "ens": A(pos(n, s, off=4).reshape(n, 1))}
+
+    def obs2d_col(n, s, lay):
+        return {"obs": A(pos(n, s).reshape(n, 1)), "sim": A(pos(n, s, off=4).reshape(n, 1))}
+
+    add("metrics.corr[row-vector]", obs_row, lambda a: metrics.corr(a["obs"], a["ens"]))
+    add("metrics.corr[one-column]", obs_col, lambda a: metrics.corr(a["obs"], a["ens"]))
+    add("metrics.crps[one-member]", obs_col, lambda a: metrics.crps(a["obs"], a["ens"]))
+    add("metrics.pit[one-member]", obs_col, lambda a: metrics.pit(a["obs"], a["ens"]))
+    add("metrics.alpha[one-member]", obs_col, lambda a: metrics.alpha(a["obs"], a["ens"]))
+    add("metrics.dscore[one-column]", obs_col, lambda a: metrics.dscore(a["obs"], a["ens"]))
+    add("metrics.kge[columns]", obs2d_col, lambda a: metrics.kge(a["obs"], a["sim"]))
+    add("metrics.nse[columns]", obs2d_col, lambda a: metrics.nse(a["obs"], a["sim"]))
+    add("metrics.bias[columns]", obs2d_col, lambda a: metrics.bias(a["obs"], a["sim"]))
     add("metrics.absolute_peak_error", obs_sim,
         lambda a: metrics.absolute_peak_error(a["obs"], a["sim"], winerase=2, winpeakbefore=1, winpeakafter=2))
     add("metrics.relative_percentile_error", obs_sim,
@@ -853,6 +879,25 @@ def build_catalogue():
         lambda a: gridmod.accumulate(a["flowdir"], a["to_accumulate"], nprint=10), layouts=GRID_LAYOUTS)
     add("grid.slope", lambda n, s, lay: {"flowdir": Fixed(make_flowdir("int64")), "altitude": Fixed(make_valgrid(lay, s))},
         lambda a: gridmod.slope(a["flowdir"], a["altitude"], nprint=10), layouts=GRID_LAYOUTS)
+    FLOAT_GRIDS = ["c64", "f32"]
+    add("grid.accumulate[to_accumulate,special cells]", lambda n, s, lay: {"flowdir": Fixed(make_flowdir("int64")),
+                                                                            "to_accumulate": Fixed(make_valgrid(lay, s, special=True))},
+        lambda a: gridmod.accumulate(a["flowdir"], a["to_accumulate"], nprint=10), layouts=FLOAT_GRIDS)
+    add("grid.slope[special cells]", lambda n, s, lay: {"flowdir": Fixed(make_flowdir("int64")),
+                                                         "altitude": Fixed(make_valgrid(lay, s, special=True))},
+        lambda a: gridmod.slope(a["flowdir"], a["altitude"], nprint=10), layouts=FLOAT_GRIDS)
+    add("grid.gsmooth[special cells]", lambda n, s, lay: {"grid": Fixed(make_valgrid(lay, s, special=True))},
+        lambda a: gridmod.gsmooth(a["grid"], coastwin=3, sigma=0.3), layouts=FLOAT_GRIDS)
+    add("grid.Grid.interpolate[special cells]", lambda n, s, lay: {"self": Fixed(make_valgrid(lay, s, special=True)),
+                                                                    "grid": Fixed(make_valgrid(lay, s + 1, 4, 5, 0.6, 10.1, -2.9, "other"))},
+        lambda a: a["self"].interpolate(a["grid"]), layouts=FLOAT_GRIDS)
+    add("grid.Grid.clip[special cells]", lambda n, s, lay: {"self": Fixed(make_valgrid(lay, s, special=True))},
+        lambda a: a["self"].clip(10.6, -2.4, 12.1, -0.9), layouts=FLOAT_GRIDS)
+    add("grid.Grid.apply[special cells]", lambda n, s, lay: {"self": Fixed(make_valgrid(lay, s, special=True))},
+        lambda a: a["self"].apply(np.sqrt), layouts=FLOAT_GRIDS)
+    add("grid.Catchment.intersect[special cells]", lambda n, s, lay: {"self": Fixed(make_catchment("int64")),
+                                                                       "grid": Fixed(make_valgrid(lay, s, 3, 3, 1.0, 10., -3., "coarse", special=False))},
+        lambda a: a["self"].intersect(a["grid"], filled=True), layouts=FLOAT_GRIDS)
     add("grid.voronoi", lambda n, s, lay: {"catchment": Fixed(make_catchment("int64")), "xypoints": A(gpts(min(n, 6), s), nan_ok=False)},
         lambda a: gridmod.voronoi(a["catchment"], a["xypoints"]))
 
